@@ -275,7 +275,7 @@ func (t *TerminalParamDetails) parseParam(id uint32, paramLen byte, content []by
 	}
 	switch id {
 	case 0x001, 0x002, 0x003, 0x004, 0x005, 0x006, 0x007, 0x01b, 0x01c, 0x020,
-		0x022, 0x027, 0x028, 0x029, 0x02a, 0x02b, 0x02c, 0x02d, 0x02e, 0x02f,
+		0x022, 0x027, 0x028, 0x029, 0x02c, 0x02d, 0x02e, 0x02f,
 		0x030, 0x045, 0x046, 0x047, 0x050, 0x051, 0x052, 0x053, 0x054, 0x055,
 		0x056, 0x057, 0x058, 0x059, 0x05a, 0x064, 0x065, 0x070, 0x071, 0x072,
 		0x073, 0x074, 0x080, 0x093, 0x095, 0x100, 0x102:
